@@ -17,7 +17,7 @@ PLAN = dict(
          "(raw/DER) and the four key-exchange messages, identity mutants excluded, expected verdicts from the reference accept set, "
          "plus wrong uid / hid / message / key. A case is distinct by its class key (configuration | kind / uid mod 64 / hid / KDF "
          "block class / mode / encoding / artefact chunk).",
-    jobs=both("c10.transcript", _ALL, shards=(3, 9), floor=800)
+    jobs=both("c10.transcript", _ALL, shards=(3, 9), floor=600)
          + both("c10.keys", ["avx2", "avx", "noadx", "purego"], shards=(1, 4), floor=50)
          + both("c10.sound", ["avx2", "purego"], shards=(6, 16), floor=100),
     assumptions=[
